@@ -366,6 +366,49 @@ class Engine:
             return fs(c)
         return TOP
 
+    def const_table_cell(self, p):
+        """a cell of a const-qualified array with an initialiser list (a lookup table): its initial value is its value"""
+        cache = self.__dict__.setdefault('_const_tables', {})
+        root = root_of(p)
+        if root not in cache:
+            g = None
+            if root.startswith('S:'):
+                _, u, name = root.split(':', 2)
+                unit = self.db.units.get(u[:-2] + '.' + u[-1]) if len(u) > 2 and u[-2] == '_' else None
+                g = unit.globals.get(name) if unit is not None else None
+            elif root.startswith('G:'):
+                for unit in self.db.units.values():
+                    cand = unit.globals.get(root[2:])
+                    if cand is not None and not cand.get('static'):
+                        g = cand
+                        break
+            ok = g is not None and g.get('t', '').startswith('const ') and '[' in g.get('t', '') and isinstance(g.get('init'), dict) and g['init'].get('k') == 'list'
+            cache[root] = g['init'] if ok else None
+        init = cache[root]
+        if init is None:
+            return TOP
+        rest = p[len(root):]
+        idxs = re.findall(r'\[(\d+|\*)\]', rest)
+        if ''.join('[%s]' % i for i in idxs) != rest:
+            return TOP
+        nodes = [init]
+        for i in idxs:
+            nxt = []
+            for nd in nodes:
+                if nd.get('k') != 'list':
+                    return TOP
+                items = nd['v']
+                if i == '*':
+                    nxt.extend(items)
+                elif int(i) < len(items):
+                    nxt.append(items[int(i)])
+                else:
+                    nxt.append({'k': 'int', 'v': 0})       # elements without an initialiser are zero
+            nodes = nxt
+        if not nodes or len(nodes) > MAXSET or any(nd.get('k') != 'int' for nd in nodes):
+            return TOP
+        return frozenset(nd['v'] for nd in nodes)
+
     def stored_or_input(self, E, p):
         """the value a read-modify-write (++, +=) starts from: what the path holds, or the input cell the hooks supply for it"""
         v = E.store.get(p, TOP)
@@ -562,7 +605,10 @@ class Engine:
                     self.hooks.on_elem(E, x)
                     return None
                 p = self.canon(E, sub)
-                if p is not None and self.trackable(p):
+                cv = self.const_table_cell(p) if p is not None and p[:2] in ('G:', 'S:') and '[' in p else TOP
+                if cv is not TOP:
+                    T[x.id] = cv
+                elif p is not None and self.trackable(p):
                     v = E.store.get(p, TOP)
                     if v is TOP:
                         parts = self.hooks.materialize_split(E, p)
